@@ -1,4 +1,5 @@
 import LokiModel.C17.Frame
+import LokiModel.C17.Attrs
 /-!
 # C17 — cloning a program unit yields an independent, correctly scoped copy (property theorems)
 
@@ -35,6 +36,15 @@ theorem clone_scoped (f : Nat) (h : Heap) (u : Addr) (hi : Inv h)
   · exact Or.inl e
   · exact Or.inr e
   · rw [hres] at e; cases e
+
+/-- **clone without overrides is attribute-wise the identity**: the clone of a unit is a unit of the same kind with the same name and
+the same attribute record (prefix, bind, dummy arguments, result name, access specs, docstring-free constructor attributes …) and the
+same parent, for all heaps and every fuel ≥ 1 -/
+theorem clone_attrs (f : Nat) (h : Heap) (u : Addr) {isMod : Bool} {name : String} {attrs : List String} {p : Option Addr} {t : Addr}
+    {secs mems : List Addr} (e : h.get u = some (.unit isMod name attrs p t secs mems)) :
+    ∃ t' secs' mems', (clone (f + 1) h u).1.get (clone (f + 1) h u).2 = some (.unit isMod name attrs p t' secs' mems') := by
+  have hp : parOf h u = p := by simp [parOf, e]
+  simpa [clone, hp] using copyUnit_attrs cloneMode f h (parOf h u) u e
 
 /-- the parent scope and the table parent of everything the clone allocates are the clone's or the environment's -/
 theorem clone_parents (f : Nat) (h : Heap) (u : Addr) (hi : Inv h)
@@ -155,8 +165,8 @@ theorem noninterference_cells (f : Nat) (h : Heap) (hi : Inv h) (s : Nat) (hs : 
 
 /-- non-vacuity: a subroutine with one statement and an environment parent satisfies the hypotheses, the clone is fully resolved -/
 def exHeap : Heap := { cells := [
-  (0, .unit true "m" none 1 [] []), (0, .tab none [("g", { code := 7 })]),
-  (1, .unit false "s" (some 0) 3 [4] []), (1, .tab (some 1) [("x", { code := 5 })]),
+  (0, .unit true "m" [] none 1 [] []), (0, .tab none [("g", { code := 7 })]),
+  (1, .unit false "s" [] (some 0) 3 [4] []), (1, .tab (some 1) [("x", { code := 5 })]),
   (1, .node "Section" none [] [5]), (1, .node "Assignment" none [⟨"x", some 2⟩, ⟨"g", some 0⟩] [])] }
 
 example : (clone 10 exHeap 2).1.unres = false := by decide +kernel
